@@ -130,20 +130,42 @@ Section Loop.
         subst i. right. exists nn. split; auto. rewrite C6. lia.
   Qed.
 
+  (* Any further invariant J of the state (with the pending queue and the node in progress as
+     context) that is preserved by one step is lifted through the loops together with inv. *)
+  Section Lift.
+  Variable J : state -> list nat -> option (nat * list req) -> Prop.
+  Variable rk : vkey.
+  Variable ifuel : nat.
+
+  Hypothesis J_skip : forall st cur q curn,
+    J st (cur :: q) None -> nth_error (s_tree st) cur = Some curn -> t_processed curn = true -> J st q None.
+  Hypothesis J_start : forall rvk st cur q curn,
+    inv rk rvk st -> pinv st (cur :: q) None ->
+    J st (cur :: q) None -> nth_error (s_tree st) cur = Some curn -> t_processed curn = false ->
+    J {| s_tree := upd cur set_processed (s_tree st); s_g := s_g st; s_log := s_log st |} q (Some (cur, [])).
+  Hypothesis J_step : forall rvk st cur curn d done rest insq q st' insq',
+    inv rk rvk st -> pinv st (insq ++ q) (Some (cur, done)) -> J st (insq ++ q) (Some (cur, done)) ->
+    nth_error (s_tree st) cur = Some curn -> t_processed curn = true -> t_ideps curn = done ++ d :: rest ->
+    step_dep ifuel st cur d insq = Ok (st', insq') ->
+    J st' (insq' ++ q) (Some (cur, done ++ [d])).
+  Hypothesis J_finish : forall st cur q curn,
+    J st q (Some (cur, t_ideps curn)) -> nth_error (s_tree st) cur = Some curn -> J st q None.
+
   (* ---------- the inner loop ---------- *)
-  Lemma process_deps_inv : forall rk rvk ifuel rest done st cur curn insq q' st' insq',
-    inv rk rvk st -> pinv st (insq ++ q') (Some (cur, done)) ->
+  Lemma process_deps_inv : forall rvk rest done st cur curn insq q' st' insq',
+    inv rk rvk st -> pinv st (insq ++ q') (Some (cur, done)) -> J st (insq ++ q') (Some (cur, done)) ->
     nth_error (s_tree st) cur = Some curn -> t_processed curn = true ->
     t_ideps curn = done ++ rest ->
     process_deps ifuel st cur rest insq = Ok (st', insq') ->
-    inv rk rvk st' /\ pinv st' (insq' ++ q') (Some (cur, done ++ rest)) /\
+    inv rk rvk st' /\ pinv st' (insq' ++ q') (Some (cur, done ++ rest)) /\ J st' (insq' ++ q') (Some (cur, done ++ rest)) /\
     exists curn', nth_error (s_tree st') cur = Some curn' /\ t_ideps curn' = t_ideps curn.
   Proof.
-    intros rk rvk ifuel rest. induction rest as [|d rest IH]; intros done st cur curn insq q' st' insq' I P Hcur Hp Hid H.
-    - simpl in H. inversion H; subst. rewrite app_nil_r. split; auto. split; auto. eauto.
+    intros rvk rest. induction rest as [|d rest IH]; intros done st cur curn insq q' st' insq' I P HJ Hcur Hp Hid H.
+    - simpl in H. inversion H; subst. rewrite app_nil_r. split; auto. split; auto. split; auto. eauto.
     - simpl in H. apply bind_ok in H. destruct H as [[st1 insq1] [Hs H]]. simpl in H.
       assert (Hd : In d (t_ideps curn)) by (rewrite Hid; apply in_or_app; right; left; reflexivity).
       destruct (step_dep_inv _ _ _ _ _ _ _ _ _ _ _ _ _ _ I Hcur Hp Hd Hs) as [I1 [GL [Hh O]]].
+      pose proof (J_step _ _ _ _ _ _ _ _ _ _ _ I P HJ Hcur Hp Hid Hs) as HJ1.
       destruct (step_out_nodes _ _ _ _ _ _ _ _ _ I Hcur O) as [Hold [Hnew [Hsub Hin]]].
       destruct (Hold _ _ Hcur) as [curn1 [Hcur1 [Cid [Cp Cidn]]]].
       assert (Cid1 : t_id curn1 = t_id curn).
@@ -185,18 +207,17 @@ Section Loop.
           + rewrite Eid. eapply handled_mono; [exact GL|]. apply (pv_done _ _ _ P _ _ E0 Hp0). simpl. rewrite Ec. congruence. }
       assert (Hid1 : t_ideps curn1 = (done ++ [d]) ++ rest) by (rewrite <- app_assoc; simpl; congruence).
       assert (Hp1 : t_processed curn1 = true) by congruence.
-      destruct (IH _ _ _ _ _ _ _ _ I1 P1 Hcur1 Hp1 Hid1 H) as [I2 [P2 [curn2 [Hc2 Hi2]]]].
-      split; auto. split.
-      + rewrite <- app_assoc in P2. exact P2.
-      + exists curn2. split; auto. congruence.
+      destruct (IH _ _ _ _ _ _ _ _ I1 P1 HJ1 Hcur1 Hp1 Hid1 H) as [I2 [P2 [HJ2 [curn2 [Hc2 Hi2]]]]].
+      split; auto. rewrite <- app_assoc in P2, HJ2. split; [exact P2|]. split; [exact HJ2|].
+      exists curn2. split; auto. congruence.
   Qed.
 
   (* marking a pending node processed *)
-  Lemma set_processed_inv : forall rk rvk st cur curn,
-    inv rk rvk st -> nth_error (s_tree st) cur = Some curn -> has_id cur curn ->
-    inv rk rvk {| s_tree := upd cur set_processed (s_tree st); s_g := s_g st; s_log := s_log st |}.
+  Lemma set_processed_inv : forall rk0 rvk st cur curn,
+    inv rk0 rvk st -> nth_error (s_tree st) cur = Some curn -> has_id cur curn ->
+    inv rk0 rvk {| s_tree := upd cur set_processed (s_tree st); s_g := s_g st; s_log := s_log st |}.
   Proof.
-    intros rk rvk st cur curn I Hcur Hh.
+    intros rk0 rvk st cur curn I Hcur Hh.
     assert (Hnth : forall i n, nth_error (upd cur set_processed (s_tree st)) i = Some n ->
               exists m, nth_error (s_tree st) i = Some m /\ t_ver n = t_ver m /\ t_pkg n = t_pkg m /\
                 t_ideps n = t_ideps m /\ t_parent n = t_parent m /\ t_id n = t_id m /\ t_bundled n = t_bundled m /\
@@ -241,17 +262,17 @@ Section Loop.
   Qed.
 
   (* ---------- the main loop ---------- *)
-  Theorem outer_inv : forall rk rvk ifuel fuel st q st',
-    inv rk rvk st -> pinv st q None -> outer ifuel fuel st q = Ok st' ->
-    inv rk rvk st' /\ pinv st' [] None.
+  Theorem outer_inv : forall rvk fuel st q st',
+    inv rk rvk st -> pinv st q None -> J st q None -> outer ifuel fuel st q = Ok st' ->
+    inv rk rvk st' /\ pinv st' [] None /\ J st' [] None.
   Proof.
-    intros rk rvk ifuel fuel. induction fuel as [|f IH]; intros st q st' I P H.
+    intros rvk fuel. induction fuel as [|f IH]; intros st q st' I P HJ H.
     - destruct q; simpl in H; [|discriminate]. inversion H; subst. auto.
     - destruct q as [|cur q']; simpl in H.
       { inversion H; subst. auto. }
       apply bind_ok in H. destruct H as [curn [Hcur H]]. apply getn_ok in Hcur.
       destruct (t_processed curn) eqn:Ep.
-      + apply IH in H; auto. constructor.
+      + apply IH in H; auto; [|eapply J_skip; eauto]. constructor.
         * intros i Hi. apply (pv_pending _ _ _ P). right. exact Hi.
         * intros i n Hn Hh. destruct (pv_cover _ _ _ P _ _ Hn Hh) as [Q|[Q|Q]]; auto.
           subst i. rewrite Hcur in Hn. inversion Hn; subst. auto.
@@ -277,9 +298,13 @@ Section Loop.
             + rewrite Nat.eqb_refl in Hx. destruct Hx.
             + apply Nat.eqb_neq in E1. rewrite Nat.eqb_sym in E1. rewrite E1 in Hx.
               apply (pv_done _ _ _ P _ _ Hm Hpr). exact Hx. }
-        destruct (process_deps_inv rk rvk ifuel (t_ideps curn) [] st1 cur (set_processed curn) [] q' st2 insq
-                    I1 P1 Hc1 eq_refl eq_refl Hpd) as [I2 [P2 [curn2 [Hc2 Hi2]]]].
-        apply IH in H; auto. simpl in P2. constructor.
+        assert (HJ1 : J st1 ([] ++ q') (Some (cur, []))) by (simpl; eapply J_start; eauto).
+        destruct (process_deps_inv rvk (t_ideps curn) [] st1 cur (set_processed curn) [] q' st2 insq
+                    I1 P1 HJ1 Hc1 eq_refl eq_refl Hpd) as [I2 [P2 [HJ2 [curn2 [Hc2 Hi2]]]]].
+        simpl in P2, HJ2.
+        assert (HJ3 : J st2 (insq ++ q') None).
+        { eapply J_finish; [|exact Hc2]. rewrite Hi2. exact HJ2. }
+        apply IH in H; auto. constructor.
         * apply (pv_pending _ _ _ P2).
         * apply (pv_cover _ _ _ P2).
         * intros i n Hn Hpr x Hx. apply (pv_done _ _ _ P2 _ _ Hn Hpr). simpl in *.
@@ -288,17 +313,22 @@ Section Loop.
   Qed.
 
   (* ---------- the whole resolution ---------- *)
-  Theorem resolve_inv : forall fuel rk r,
-    resolve fuel rk = Ok r ->
+  Hypothesis J_init : forall v root tree,
+    c_version rk = Ok v -> new_tree_node c_requirements c_matching v = Ok root ->
+    inject c_requirements c_matching ifuel [set_id 0 root] 0 (t_ver root) = Ok tree ->
+    J {| s_tree := tree; s_g := {| g_nodes := [rk]; g_edges := []; g_errors := [] |}; s_log := [] |} [0] None.
+
+  Theorem resolve_inv_J : forall r,
+    resolve ifuel rk = Ok r ->
     let st := {| s_tree := r_tree r; s_g := r_graph r; s_log := r_log r |} in
-    exists v, c_version rk = Ok v /\ inv rk (v_key v) st /\ pinv st [] None.
+    exists v, c_version rk = Ok v /\ inv rk (v_key v) st /\ pinv st [] None /\ J st [] None.
   Proof.
-    intros fuel rk r H. unfold Npm.resolve in H.
+    intros r H. unfold Npm.resolve in H.
     destruct (negb (N.eqb (vk_type rk) T_Concrete)); [discriminate|].
     apply bind_ok in H. destruct H as [v [Hv H]].
-    apply bind_ok in H. destruct H as [root [Hroot H]]. apply new_tree_node_spec in Hroot.
+    apply bind_ok in H. destruct H as [root [Hroot H]]. pose proof Hroot as Hroot0. apply new_tree_node_spec in Hroot.
     destruct Hroot as [reqs [Hreqs Hroot]]. simpl in H.
-    apply bind_ok in H. destruct H as [tree [Hinj H]].
+    apply bind_ok in H. destruct H as [tree [Hinj H]]. pose proof (J_init _ _ _ Hv Hroot0 Hinj) as HJ0.
     apply bind_ok in H. destruct H as [st [Hout H]].
     apply bind_ok in H. destruct H as [errs [Hsw H]]. inversion H; subst r. simpl. clear H.
     apply inject_spec in Hinj; [|simpl; lia]. destruct Hinj as [L [O N]]. simpl in *.
@@ -340,7 +370,18 @@ Section Loop.
       - intros i n Hn Hpr. exfalso. destruct i as [|i].
         + rewrite Hrn in Hn. inversion Hn; subst n. subst root0 root. simpl in *. congruence.
         + destruct (Hnew (S i) n) as [b [p [_ [_ [_ [_ [F5 _]]]]]]]; [lia | exact Hn | congruence]. }
-    destruct (outer_inv _ _ _ _ _ _ _ I0 P0 Hout) as [I1 P1].
+    destruct (outer_inv _ _ _ _ _ I0 P0 HJ0 Hout) as [I1 [P1 HJ1]].
     destruct st as [t1 g1 l1]. simpl in *. exists v. auto.
+  Qed.
+  End Lift.
+
+  Theorem resolve_inv : forall fuel rk r,
+    resolve fuel rk = Ok r ->
+    let st := {| s_tree := r_tree r; s_g := r_graph r; s_log := r_log r |} in
+    exists v, c_version rk = Ok v /\ inv rk (v_key v) st /\ pinv st [] None.
+  Proof.
+    intros fuel rk r H.
+    destruct (resolve_inv_J (fun _ _ _ => True) rk fuel) with (r := r) as [v [Hv [I [P _]]]]; auto.
+    exists v. auto.
   Qed.
 End Loop.
